@@ -116,6 +116,11 @@ func (c *Case) analyse() *static {
 				}
 				a = append(a, x%n)
 			}
+			switch o.Op {
+			case "Sum", "Mux", "Eval":
+			default:
+				a = a[:ar] // fixed arity: surplus operands are ignored
+			}
 		}
 		allExact := true
 		for _, x := range a {
